@@ -78,6 +78,14 @@ JudgeC14 ==
              \/ Say([g |-> G.name, p |-> "C14", what |-> "eof", n |-> n])
           /\ \/ EOFT \in (A.follow[n] \cup spec)
              \/ Say([g |-> G.name, p |-> "C14", what |-> "eof_spec", n |-> n])
+          \* the same for every part entry point: its end marker is the end-of-input token
+          \* while the part is parsed, for every loop that parse can reach
+          /\ \A k \in DOMAIN G.parts :
+               LET pb == BodyOf(G, G.parts[k].name) IN
+               \/ pb = 0
+               \/ n \notin ReachFrom(G, {pb}, {})
+               \/ G.parts[k].mark \in (SeqToSet(G.lel.follow[n]) \cup impl)
+               \/ Say([g |-> G.name, p |-> "C14", what |-> "part_eof", n |-> n, part |-> G.parts[k].name])
 
 \* sanity of the oracle itself: a reduced grammar is what the quantifiers range over
 JudgeReduced ==
